@@ -97,6 +97,22 @@ func genC14(seed uint64, tier string) *plan.Plan {
 		}
 	}
 	horizonMs := int64(now/time.Millisecond) + 1
+	if !udp && r.IntN(2) == 0 {
+		// a collector that stops reading (for a while or for good) while the application keeps
+		// sending: the sends block on the full window, and Close arrives from other goroutines
+		pl.Cfg["window"] = []int64{512, 2048, 8192}[r.IntN(3)]
+		stall := int64(-1)
+		if r.IntN(3) == 0 {
+			stall = int64(500 + r.IntN(8000))
+		}
+		pl.Ops = append(pl.Ops, plan.Op{K: "stallnow", B: stall})
+		for i := 2 + r.IntN(4); i > 0; i-- {
+			pl.Ops = append(pl.Ops, plan.Op{K: "data", A: int64(r.IntN(nT)), B: int64(10 + r.IntN(30)), C: int64(r.Uint64() >> 1), D: int64(100 + r.IntN(200))})
+		}
+		for c := r.IntN(3); c > 0; c-- {
+			pl.Ops = append(pl.Ops, plan.Op{K: "closer", T: 3 + c, A: horizonMs + r.Int64N(3000), B: int64(1 + r.IntN(2))})
+		}
+	}
 	if r.IntN(2) == 0 {
 		for c := 1 + r.IntN(3); c > 0; c-- {
 			pl.Ops = append(pl.Ops, plan.Op{K: "closer", T: c, A: r.Int64N(horizonMs + 10), B: int64(1 + r.IntN(3))})
@@ -188,6 +204,7 @@ func runC14(pl *plan.Plan, out *plan.Outcome) {
 				return simnet.Fate{}
 			}
 		}
+		opts.noPeer = true // the peer task below accepts (and, with a window, reads)
 		s, err := newExpSessionOpts(env, opts)
 		if err != nil {
 			out.Trouble = "exporter init failed: " + err.Error()
@@ -229,6 +246,9 @@ func runC14(pl *plan.Plan, out *plan.Outcome) {
 			}
 			srvConn = c.(*simnet.Conn)
 			close(accepted)
+			if sess.window > 0 {
+				env.Go("peer-reader", func() { sess.servePeer(c) })
+			}
 			if peerCloseMs >= 0 {
 				env.Sleep(time.Duration(peerCloseMs) * time.Millisecond)
 				env.mu.Lock()
@@ -251,8 +271,40 @@ func runC14(pl *plan.Plan, out *plan.Outcome) {
 				noteClose(time.Now())
 				Block("close", func() { sess.ep.CloseConnToCollector() })
 				noteRet(time.Now())
+				sess.noteClosed()
 				env.Count("fault.concurrent_close", 1)
 			}
+		})
+	}
+	if !udp && cfgOr(pl, "window", 0) > 0 {
+		// With a collector that may have stopped reading for good the application can be blocked in
+		// SendSet indefinitely; only a Close from another goroutine ends that. This one is not part of
+		// the plan (so no shrinking can remove it): it comes after everything the plan schedules.
+		var total time.Duration
+		for _, op := range pl.Ops {
+			switch op.K {
+			case "adv":
+				total += time.Duration(op.A)
+			case "closer":
+				if d := time.Duration(op.A) * time.Millisecond; d > total {
+					total = d
+				}
+			case "stallnow":
+				if op.B > 0 {
+					total += time.Duration(op.B) * time.Millisecond
+				}
+			}
+		}
+		env.Go("closer-last", func() {
+			Block("wait", func() { <-sessReady })
+			if sess == nil {
+				return
+			}
+			env.Sleep(total + 60*time.Second)
+			noteClose(time.Now())
+			Block("close", func() { sess.ep.CloseConnToCollector() })
+			noteRet(time.Now())
+			sess.noteClosed()
 		})
 	}
 	res := env.Run()
